@@ -58,6 +58,8 @@ def run(ctx):
     # different constraints carrying one name (a label, not a key)
     cases.append(dict(root=wide, ctcs=[("rule", OP("IMPLIES", T("Alpha"), T("Gamma"))), ("rule", OP("EXCLUDES", T("Beta"), T("Eta"))),
                                        ("rule", OP("OR", T("Delta"), T("Gamma")))]))
+    # numbered constraints and features past 9, a group of 300 (AFM-compatible names)
+    cases.extend(m for m in gen.big_models(cardinal=False) if m["root"]["name"] in ("Num", "Big"))
     # order-permuted twins: equal-comparing models whose text differs (children in another order)
     import copy
     for m in list(cases[:6]) + list(cases[-4:]):
